@@ -24,7 +24,7 @@ TRUSTED = c05.TRUSTED
 def run(index: RepoIndex, rep) -> None:
     rep.rule('C07.R5', 'row and column quantities are not exchanged when slicing and building the view (axis typing, E14)', floor=1)
     from ..axes import axis_rule
-    axis_rule(index, rep, 'C07.R5', ('gym_gridverse/grid.py', 'gym_gridverse/envs/observation_functions.py'), floor=20)
+    axis_rule(index, rep, 'C07.R5', ('gym_gridverse/grid.py', 'gym_gridverse/envs/observation_functions.py'), floor=8)
     geo = Geometry(index)
     pipe = Pipeline(index, geo)
     sub = Subgrid(index)
